@@ -850,7 +850,7 @@ func (s *scanner) ReadStreamData(dict Dict) (stm *Stream, err error) {
 			return nil, err
 		}
 		l = eolPos - start
-		l, err = trimTrailingEOL(origReader, start, l)
+		l, err = trimLeadingCR(origReader, start, l)
 		if err != nil {
 			return nil, err
 		}
@@ -872,37 +872,25 @@ func (s *scanner) ReadStreamData(dict Dict) (stm *Stream, err error) {
 	}, nil
 }
 
-// trimTrailingEOL returns length with any single trailing \n, \r, or
-// \r\n removed.  The bytes before "endstream" are an EOL per spec
-// (PDF 7.3.8.2) and must not be considered part of the stream
-// content.
+// trimLeadingCR completes the end-of-line marker in front of "endstream"
+// in the recovery path of [scanner.ReadStreamData].  The data occupies
+// length bytes from start and is followed by the EOL byte which the search
+// matched; when that byte is the \n of a \r\n pair, the \r in front of it
+// belongs to the marker, too, and is removed from the length.  Nothing
+// else is removed: the marker is a single EOL (PDF 7.3.8.2), and an EOL in
+// front of it is part of the stream content.
 //
 // A failure of the byte source is returned as an error.
-func trimTrailingEOL(r io.ReaderAt, start, length int64) (int64, error) {
+func trimLeadingCR(r io.ReaderAt, start, length int64) (int64, error) {
 	if length <= 0 {
 		return length, nil
 	}
 	var probe [2]byte
-	readAt := start + length - int64(len(probe))
-	readLen := len(probe)
-	if readAt < start {
-		readAt = start
-		readLen = int(length)
-	}
-	n, err := r.ReadAt(probe[:readLen], readAt)
-	if err != nil && err != io.EOF && n < readLen {
+	n, err := r.ReadAt(probe[:], start+length-1)
+	if err != nil && err != io.EOF && n < len(probe) {
 		return 0, err
 	}
-	if n == 0 {
-		return length, nil
-	}
-	switch probe[n-1] {
-	case '\n':
-		length--
-		if n >= 2 && probe[n-2] == '\r' {
-			length--
-		}
-	case '\r':
+	if n == len(probe) && probe[0] == '\r' && probe[1] == '\n' {
 		length--
 	}
 	return length, nil
